@@ -120,10 +120,9 @@ func (vc *FnVC) oblige(name, kind string, props []string, pos string, guard, goa
 		full = fmt.Sprintf("%s~%d", full, n)
 	}
 	if len(props) == 0 {
-		props = vc.ct.Props
-	}
-	if len(props) == 0 {
-		props = vc.ct.SafetyProps
+		// clauses without an explicit tag (frames, preconditions of callees, unlabelled clauses) serve every
+		// property the function is listed for
+		props = append(append([]string{}, vc.ct.Props...), vc.ct.SafetyProps...)
 	}
 	ob := &Obligation{Name: full, Fn: vc.fnName(), Kind: kind, Props: props, Pos: pos, Guard: guard, Goal: goal, Cut: len(vc.log), Clause: clause, vc: vc}
 	vc.obs = append(vc.obs, ob)
@@ -227,6 +226,26 @@ func GenerateVC(g *Gen, fn *ssa.Function, ct *Contract) (vc *FnVC) {
 	for _, n := range sortedKeys(cg) {
 		if s := g.sortOf(cg[n].Type()); s == SInt || s == SBool || s == SStr {
 			vc.assume(Eq(st.Get(g, "G:"+n), g.constTerm(cg[n])))
+		}
+	}
+	// package-level slices and pointers refer to cells that already exist at function entry
+	var gnames []string
+	for n, m := range g.pkg.Members {
+		if _, ok := m.(*ssa.Global); ok {
+			gnames = append(gnames, n)
+		}
+	}
+	sort.Strings(gnames)
+	for _, n := range gnames {
+		gv := g.pkg.Members[n].(*ssa.Global)
+		el := gv.Type().(*types.Pointer).Elem()
+		switch g.sortOf(el) {
+		case SSlice:
+			vc.typeFacts(st.Get(g, "G:"+n), el, st)
+		case SInt:
+			if _, isPtr := el.Underlying().(*types.Pointer); isPtr {
+				vc.typeFacts(st.Get(g, "G:"+n), el, st)
+			}
 		}
 	}
 	for _, n := range sortedKeys(g.nonNilGlob) {
@@ -1046,6 +1065,15 @@ func (vc *FnVC) resultEnv(fr *Frame, results []*Term, st *State) *Env {
 
 func (vc *FnVC) emitPost(fr *Frame, guard *Term, results []*Term, st *State) {
 	env := vc.resultEnv(fr, results, st)
+	for _, l := range vc.ct.PostLocals {
+		e2 := *env
+		e2.where = l.Line
+		t, err := e2.Parse(l.Expr)
+		if err != nil {
+			panic(&exprError{err.Error()})
+		}
+		env.vars[l.Var] = vc.define("ploc_"+l.Var, t)
+	}
 	for i, c := range vc.ct.Ensures {
 		e2 := *env
 		e2.where = c.Line
